@@ -207,3 +207,14 @@ Definition i32_max : Z := 2 ^ 31 - 1.
 Definition f64_as_i32 (x : F64) : Z := D.to_int_sat i32_min i32_max x.
 Definition f32_as_i32 (x : F32) : Z := S.to_int_sat i32_min i32_max x.
 Definition f64_as_usize (x : F64) : Z := D.to_int_sat 0 (2 ^ 64 - 1) x.
+
+(* ---- appended for C14 (HitObjectLine) ----
+   [x.max(LIT)] with a non-NaN literal right operand, as rustc lowers it on
+   x86-64 at opt-level >= 1 ([maxsd x, LIT]: the literal comes back when the
+   operands compare equal or x is NaN).  Observed on this machine: release
+   [(-0.0f64).max(0.0)] = +0.0 whereas a debug build (and [D.max], which returns
+   its first operand on ties) gives -0.0; Rust's documentation leaves the sign
+   of zero open.  The harness links a release build, so this is the variant
+   the spinner duration [(end - start).max(0.0)] is modelled with. *)
+Definition f64_max_lit (a lit : F64) : F64 :=
+  if D.is_nan a then lit else if D.lt lit a then a else lit.
